@@ -22,8 +22,9 @@ Assumptions it makes (and records in the generated file):
   * thread-affinity guards (`... is not threading.current_thread()`) are evaluated for "called from the task thread";
   * `if`s on data the synchronisation does not depend on (`time_to_sleep > 0`, `self._policy == ...`,
     `self.update_settings()`, `self.update_status()`) become nondeterministic choices (`ldAny`);
-  * user hooks of QMI_LoopTask (`loop_prepare`, `loop_iteration`, `loop_finalize`) become observable marks, the
-    remaining ones (`process_new_settings`, `publish_signals`, `sig_status_updated.publish`) and logging are skipped.
+  * user hooks of QMI_LoopTask (`loop_prepare`, `loop_iteration`, `loop_finalize`, `process_new_settings`,
+    `publish_signals`) are calls of functions whose bodies the modelled system supplies (they may wait themselves);
+    `sig_status_updated.publish` and logging are skipped.
 """
 from __future__ import annotations
 
@@ -44,8 +45,11 @@ STATE_NAMES = ("INITIAL", "EXCEPTION_WHILE_INSTANTIATING_TASK", "READY_TO_RUN", 
 ACC_WRITERS = {"ldFlag", "ldWc", "condWait", "evWait", "ldPred", "ldLoc", "ldConst", "neg", "ldAny", "ldIsTask", "call"}
 RUNNING_STATE = "RUNNING"
 DATA_CALLS = {"time.monotonic", "int", "float", "min", "max", "abs"}
-SKIP_HOOKS = {"self.process_new_settings", "self.publish_signals", "self.sig_status_updated.publish"}
-MARK_HOOKS = {"self.loop_prepare": "prepare", "self.loop_iteration": "iteration", "self.loop_finalize": "finalize"}
+SKIP_HOOKS = {"self.sig_status_updated.publish"}
+# user hooks of QMI_LoopTask: calls into functions 8..12 of the model's function table, whose bodies the *system* supplies
+# (a hook may itself wait: sleep / get_next_signal inside loop_iteration, process_new_settings, publish_signals)
+HOOK_CALLS = {"self.loop_prepare": 8, "self.loop_iteration": 9, "self.loop_finalize": 10, "self.process_new_settings": 11,
+              "self.publish_signals": 12}
 ANY_CALLS = {"self.update_settings", "self.update_status"}
 SYNC_ATTRS = {"_wait_cond", "_wait_cond_lock", "_stop_requested", "_state_cond", "_queue_cond", "_queue", "_state"}
 
@@ -86,6 +90,7 @@ class FnCompiler:
         self.cur_src = ""
         self.assumptions: list = []
         self.my_locals: list = []
+        self.cond_locals: set = set()
 
     # -- errors / emission ------------------------------------------------------
     def fail(self, node, why: str):
@@ -107,12 +112,16 @@ class FnCompiler:
         self.tr.local_names.append(f"{self.lname}.{name}")
         self.alias[name] = (kind, idx)
         self.my_locals.append(idx)
+        if kind == "condopt":
+            if self.cond_locals:
+                raise Untranslatable(f"{self.fname}: {self.fdef.name} keeps more than one local loaded from the _wait_cond slot")
+            self.cond_locals.add(idx)
         return idx
 
     def kill_locals(self):
         """Locals go out of scope when the frame is left (keeps dead values out of the model's state)."""
         for i in self.my_locals:
-            self.emit("clrLoc", i)
+            self.emit("clrCond" if i in self.cond_locals else "clrLoc", i)
 
     # -- classification of expressions -----------------------------------------
     def is_flag(self, node) -> bool:
@@ -388,14 +397,14 @@ class FnCompiler:
             if fs == "self.stop_task" and not args and self.lname == "requestShutdown":
                 self.emit("call", FUNC_INDEX["stopTask"])
                 return
-            if fs in MARK_HOOKS and not args:
-                self.emit("mark", "." + MARK_HOOKS[fs])
+            if fs in HOOK_CALLS and not args and self.lname == "loopRun":
+                self.emit("call", HOOK_CALLS[fs])
                 return
             if fs in SKIP_HOOKS:
                 for a in args:
                     if not self.is_data(a):
                         self.fail(node, "argument of a skipped hook not understood")
-                self.note("hooks process_new_settings / publish_signals / sig_status_updated.publish and logging are skipped")
+                self.note("sig_status_updated.publish and logging are skipped")
                 if want_value:
                     self.fail(node, "value of a skipped hook used")
                 return
@@ -640,17 +649,19 @@ class FnCompiler:
         for ctx in ctxs:
             ctx["lo"] = self.here()
 
-    def protected(self, body, final, excepts):
-        """try: body  except K_i: h_i  finally: final   (final / excepts optional)."""
+    def protected(self, body, final, excepts, orelse=None):
+        """try: body  except K_i: h_i  else: orelse  finally: final   (final / excepts / orelse optional)."""
         end = Label()
         if excepts and final is not None:
-            # try/except/finally == try{ try/except } finally
-            return self.protected(lambda: self.protected(body, None, excepts), final, [])
+            # try/except/else/finally == try{ try/except/else } finally
+            return self.protected(lambda: self.protected(body, None, excepts, orelse), final, [])
         ctx = {"lo": self.here(), "ranges": [], "final": final}
         self.finals.append(ctx)
         body()
         self.finals.pop()
         ctx["ranges"].append((ctx["lo"], self.here()))
+        if orelse is not None:
+            orelse()        # runs when the body ended normally; NOT protected by the except clauses of this try
         if final is not None:
             final()
         self.emit("jmp", end)
@@ -690,8 +701,6 @@ class FnCompiler:
         self.protected(lambda: self.cbody(s.body), fin, [])
 
     def ctry(self, s: ast.Try):
-        if s.orelse:
-            self.fail(s, "try/else")
         excepts = []
         for h in s.handlers:
             if h.type is None or h.name is not None:
@@ -708,7 +717,10 @@ class FnCompiler:
         if final is None and not excepts:
             self.fail(s, "try without handlers")
         self.cur_src = ""
-        self.protected(lambda: self.cbody(s.body), final, excepts)
+        if s.orelse and not excepts:
+            self.fail(s, "try/else without except")
+        orelse = (lambda: self.cbody(s.orelse)) if s.orelse else None
+        self.protected(lambda: self.cbody(s.body), final, excepts, orelse)
 
     def creturn(self, s: ast.Return):
         src = self.cur_src
